@@ -9,6 +9,11 @@ import common  # noqa: E402
 
 CHECKS = {
     "C01": "pprops",
+    "C02": "pprops",
+    "C03": "pprops",
+    "C04": "pprops",
+    "C05": "pprops",
+    "C13": "pprops",
     "C15": "c15",
 }
 
